@@ -88,7 +88,7 @@ def shrink(case, drv, mdl, differs, budget=200):
     return Case(lines, case.tag)
 
 def decode_tok(t):
-    m = re.match(r"^([bhwWc])([svzx]?):([0-9A-Fa-f]*)$", t)
+    m = re.match(r"^([bhwWc])([svzxy]?):([0-9A-Fa-f]*)$", t)
     if not m:
         return t
     e, _, h = m.groups()
